@@ -35,16 +35,16 @@ T2 = "_ipp._tcp.local."
 def floors(tier):
     q = tier == "quick"
     return {"c17.goodbyes": 1500 if q else 150000, "c17.quiet": 2500 if q else 300000, "c17.lookups": 1000 if q else 100000, "c17.second_close": 2500 if q else 300000,
-            "c17.withdrawn": 2500 if q else 300000, "c17.threads": 1 if q else 4}
+            "c17.withdrawn": 2500 if q else 300000, "c17.threads": 4 if q else 16, "c17.threads.goodbyes": 1 if q else 4}
 
 
 def plan(tier, seed):
     if tier == "quick":
-        n, per, thr = 16, 200, 1
+        n, per, thr = 16, 200, 2
     else:
-        n, per, thr = 64, 6000, 1
+        n, per, thr = 64, 6000, 4
     specs = [{"seed": seed, "shard": i, "per": per, "tier": tier, "threads": 0} for i in range(n)]
-    for k in range(2 if tier == "quick" else 6):
+    for k in range(4 if tier == "quick" else 8):
         specs.append({"seed": seed, "shard": 1000 + k, "per": 0, "tier": tier, "threads": thr})
     return specs
 
@@ -405,8 +405,20 @@ def run_threads(res: Result, seed: int) -> None:
             res.inconclusive.append("thread run: the browser thread did not deliver a callback within 15 s (machine overloaded?)")
             zc.close()
             return
+        # the blocking API as applications use it: either close() alone, or unregister_service() followed at once by close()
+        mode = rng.choice(["close", "unregister+close", "unregister+close"])
+        if mode == "unregister+close":
+            if not reg_done.wait(15):
+                res.inconclusive.append("thread run: registration did not finish within 15 s (machine overloaded?)")
+                zc.close()
+                return
+
+        def do_close() -> None:
+            if mode == "unregister+close" and not reg_err:
+                zc.unregister_service(info)
+            zc.close()
         t0 = time.monotonic()
-        closer = threading.Thread(target=zc.close, daemon=True)
+        closer = threading.Thread(target=do_close, daemon=True)
         closer.start()
         closer.join(30)
         if closer.is_alive():
@@ -434,8 +446,14 @@ def run_threads(res: Result, seed: int) -> None:
             m, _ = wire.try_parse(e["data"], strict=False)
             if m and m.is_response and any(r.ttl == 0 and R.ident_of_wire(r) == s.ptr() for r in m.answers):
                 goodbyes += 1
-        registered = not reg_err and any(True for e in net.trace if wire.try_parse(e["data"], strict=False)[0] is not None)
-        res.cls("threads", "goodbyes=%d" % goodbyes, "reg_err=%s" % (type(reg_err[0]).__name__ if reg_err else "none"))
+        announced = any(m2 is not None and m2.is_response and any(r.ttl > 0 and R.ident_of_wire(r) == s.ptr() for r in m2.answers)
+                        for m2 in (wire.try_parse(e["data"], strict=False)[0] for e in net.trace))
+        if mode == "unregister+close" and not reg_err and announced:
+            # the service was registered and announced, then withdrawn through the blocking API: three goodbyes are owed
+            res.mon("c17.threads.goodbyes")
+            if goodbyes != 3:
+                viol("goodbye_count_blocking_api", "unregister_service() followed by close(): %d goodbye datagram(s) for the announced service (expected 3)" % goodbyes)
+        res.cls("threads", mode, "goodbyes=%d" % goodbyes, "reg_err=%s" % (type(reg_err[0]).__name__ if reg_err else "none"))
         try:
             zc.close()
         except Exception as e:
